@@ -925,7 +925,7 @@ def check_all_mut(typ, relpaths, info):
 def const_bytes(name, relpath, info):
     """`const NAME: &[u8] = b"...";` -> assumed-accessor fn NAME_v() with the literal's bytes; uses are renamed (R20)."""
     src = open(os.path.join(REPO, relpath)).read()
-    m = re.search(r'\bconst\s+' + re.escape(name) + r'\s*:\s*&(?:\'static\s+)?\[u8\]\s*=\s*b"((?:[^"\\\\]|\\\\.)*)"\s*;', src)
+    m = re.search(r'\bconst\s+' + re.escape(name) + r'\s*:\s*&(?:\'static\s+)?\[u8\]\s*=\s*b"((?:[^"\\]|\\.)*)"\s*;', src)
     if not m:
         raise GenError('const %s not found as a byte-string constant in %s (lost anchor)' % (name, relpath))
     bs = _bytes_of_literal(m.group(1))
